@@ -981,7 +981,12 @@ func isinstance(obj py.Object, classOrTuple py.Object) (py.Bool, error) {
 		if classOrTuple.Type().ObjectType != py.TypeType {
 			return false, py.ExceptionNewf(py.TypeError, "isinstance() arg 2 must be a type or tuple of types")
 		}
-		return obj.Type() == classOrTuple, nil
+		cls, ok := classOrTuple.(*py.Type)
+		if !ok {
+			return false, py.ExceptionNewf(py.TypeError, "isinstance() arg 2 must be a type or tuple of types")
+		}
+		// an instance of a subclass is an instance of every class in its type's MRO
+		return py.Bool(obj.Type().IsSubtype(cls)), nil
 	}
 }
 
